@@ -3,6 +3,6 @@ CONSTANTS
   Runs = {1, 2}
   Params <- Params_CD
   OrderKinds = {"order", "balance", "trade"}
-INVARIANTS TypeOK PrefixAlways CompleteInOrder FeedInOrder SentOK ClockOwn AppliedOK SummaryOK
+INVARIANTS TypeOK PrefixAlways CompleteInOrder FeedInOrder SentOK ClockOwn AppliedOK SummaryOK BatchOK
 PROPERTIES Isolation Monotone 
 CHECK_DEADLOCK FALSE
